@@ -27,7 +27,7 @@ RULE = ('cases = (operator form, input variant in {rectangular, ragged, with-mut
         'cells, addfield/addcolumn insertion indices, joins with missing=). Non-trivial: the source has >= 2 data rows and the operator '
         'delivered >= 2 rows. Distinct = SHA-1 of the case.')
 ASSUMPTIONS = ['mutable cell types generated are list and dict', 'the guard self-test fires at the start of every run, otherwise the run is inconclusive']
-REQUIRED = ['guard-selftest', 'entries-judged', 'rows-in-yield-ledger', 'partial-iterations', 'ragged-inputs', 'mutable-cells', 'guarded-arguments']
+REQUIRED = ['guard-selftest', 'entries-judged', 'rows-in-yield-ledger', 'partial-iterations', 'ragged-inputs', 'mutable-cells', 'guarded-arguments', 'c12-argument-forms']
 
 MUT = [[1, 2], {'p': 1}, [], {'p': 1, 'q': [2]}, [[3]], {'q': 2}]
 
@@ -127,6 +127,15 @@ def cases(ctx):
         for variant in _variants_for(name):
             for stop in [None] + list(range(0, 8)):
                 yield {'op': name, 'variant': variant, 'stop': stop}
+    # every argument form of the field / row transforms of C12, on its generated (ragged, duplicate-name) tables
+    from petlmon.checks import c12
+
+    class _Ctx(object):
+        quick = ctx.quick
+        pick = staticmethod(lambda q, t: ctx.pick(q // 12, t // 12))
+        rng = staticmethod(lambda *a: ctx.rng('c12-forms', *a))
+    for c in c12.cases(_Ctx()):
+        yield {'op': 'c12:' + c['form'], 'c12case': c}
 
 
 def setup(ctx):
@@ -164,7 +173,38 @@ def _input(variant, n=4):
     raise KeyError(variant)
 
 
+def _judge_c12(case, ctx):
+    from petlmon.checks import c12
+    c = case['c12case']
+    del probes.GUARD_LOG[:]
+    before = util.canon(c.get('table', c.get('tables')))
+    c12.WRAP[0] = probes.guard
+
+    class _Quiet(object):            # C12's own observations are not C03's
+        def seen(self, *a, **k):
+            pass
+        op = mark_nontrivial = seen
+    try:
+        c12.judge(c, _Quiet())
+    finally:
+        c12.WRAP[0] = lambda t: t
+    ctx.seen('entries-judged')
+    ctx.seen('c12-argument-forms')
+    if c.get('table') and len(c['table']) > 2:
+        ctx.mark_nontrivial()
+    out = []
+    if probes.GUARD_LOG:
+        ev = probes.GUARD_LOG[:3]
+        out.append({'kind': 'input-mutated', 'events': [{'container': k, 'method': m, 'stack': st} for k, m, st in ev], 'count': len(probes.GUARD_LOG)})
+    if util.canon(c.get('table', c.get('tables'))) != before:
+        out.append({'kind': 'source-differs-after-evaluation'})
+    del probes.GUARD_LOG[:]
+    return out
+
+
 def judge(case, ctx):
+    if 'c12case' in case:
+        return _judge_c12(case, ctx)
     name, variant, stop = case['op'], case['variant'], case['stop']
     if name in EXTRA:
         fn, arity, _ = EXTRA[name]
